@@ -3,7 +3,26 @@ import json, os
 import vlib
 
 
-def run_vectors(chk, wd, gen_module, *, gen_cfg=None, env=None, workers=4, label="gen", sig_of=None, what_of=None, timeout=3600):
+def validate_records(chk, wd, trace_module, recs, label, sig_of=None):
+    """Validate harness records with a trace spec; every rejected record is reported (the spec skips it and goes on)."""
+    path = os.path.join(wd, f"{label}.rec.ndjson")
+    with open(path, "w") as f:
+        for x in recs:
+            f.write(json.dumps(x) + "\n")
+    if recs:
+        rej, r = vlib.validate_records(trace_module, path, name=f"{label}-validate", wd=wd)
+        chk.add_tlc(f"{label}-validate", r)
+        for pos in rej:
+            bad = recs[pos - 1]
+            sig = sig_of(bad) if sig_of else f"{bad['fn']}:record"
+            chk.violation(sig, f"{bad['fn']} record not explained by the specification: {json.dumps(bad)[:300]}", {"kind": "record", "record": bad})
+    chk.evaluations += len(recs)
+    chk.traces += len(recs)
+    return len(recs)
+
+
+def run_vectors(chk, wd, gen_module, *, gen_cfg=None, env=None, workers=4, label="gen", sig_of=None, what_of=None, timeout=3600,
+                trace_module=None, rec_sig_of=None):
     """Binding A for pure functions: TLC enumerates inputs + expected values, the harness executes and compares."""
     g = vlib.tlc(gen_module, gen_cfg, name=label, wd=wd, workers=workers, env=env, timeout=timeout)
     if not g.ok:
@@ -23,9 +42,13 @@ def run_vectors(chk, wd, gen_module, *, gen_cfg=None, env=None, workers=4, label
             if fn and len(chk.samples) < 5 and fn not in per_fn:
                 per_fn[fn] = 1
                 chk.sample(json.loads(line))
+    recs = []
     for r in vlib.read_ndjson(out):
         if r.get("summary"):
             summary = r
+            continue
+        if "rec" in r:
+            recs.append(r["rec"])
             continue
         v = r["vec"]
         sig = sig_of(v, r["got"]) if sig_of else f"{v['fn']}"
@@ -33,37 +56,26 @@ def run_vectors(chk, wd, gen_module, *, gen_cfg=None, env=None, workers=4, label
         chk.violation(sig, what, {"kind": "vector", "vector": v, "got": r["got"]})
     if summary is None or summary["vectors"] != n:
         raise vlib.ToolError("harness did not process every vector")
-    chk.evaluations += n
-    chk.traces += n
+    chk.evaluations += n - len(recs)
+    chk.traces += n - len(recs)
+    if recs:
+        if not trace_module:
+            raise vlib.ToolError("records produced but no trace module given")
+        chk.sample(recs[0])
+        validate_records(chk, wd, trace_module, recs, label + "-rec", rec_sig_of)
     return n
 
 
-def run_random(chk, wd, prop, trace_module, n, *, label="rand", shards=1):
+def run_random(chk, wd, prop, trace_module, n, *, label="rand", shards=1, sig_of=None):
     """Binding B for pure functions: the harness drives random inputs, TLC judges every record."""
     total = 0
     for s in range(shards):
         out = os.path.join(wd, f"{label}{s}.ndjson")
         vlib.h3v("codec-rand", prop, vlib.seed() * 1000 + s, n, out)
-        ok, pos, r = vlib.validate_trace(trace_module, out, name=f"{label}{s}", wd=wd)
-        chk.add_tlc(f"{label}{s}-validate", r)
         recs = list(vlib.read_ndjson(out))
-        total += len(recs)
         if recs:
             chk.sample(recs[0])
-        while not ok:
-            bad = recs[pos - 1]
-            chk.violation(f"{bad['fn']}:random", f"{bad['fn']} in={json.dumps(bad.get('in'))[:120]} out={json.dumps(bad['out'])[:200]} not explained by the definition",
-                          {"kind": "record", "record": bad})
-            # cut the rejected record out and validate the rest, so one rejection never hides the others
-            recs = recs[pos:]
-            if not recs or len(chk.violations) > 25:
-                break
-            with open(out, "w") as f:
-                for x in recs:
-                    f.write(json.dumps(x) + "\n")
-            ok, pos, r = vlib.validate_trace(trace_module, out, name=f"{label}{s}", wd=wd)
-    chk.evaluations += total
-    chk.traces += total
+        total += validate_records(chk, wd, trace_module, recs, f"{label}{s}", sig_of or (lambda b: f"{b['fn']}:random"))
     return total
 
 
